@@ -315,6 +315,9 @@ func (g *regexpGen) build(w runeWriter, re *syntax.Regexp, t *T) {
 		sub := anyRuneGen
 		switch re.Op {
 		case syntax.OpCharClass:
+			if len(re.Rune) == 0 {
+				panic(invalidData("no possible regexp match")) // a class like [^\s\S] contains nothing
+			}
 			sub = charClassGen(re)
 		case syntax.OpAnyCharNotNL:
 			sub = anyRuneGenNoNL
